@@ -250,6 +250,8 @@ type TTMLInDuration struct {
 	d                 time.Duration
 	frames, framerate int // Framerate is in frame/s
 	ticks, tickrate   int // Tickrate is in ticks/s
+	// Fractional digits of an offset time expressed in frames or ticks ("5" for "1.5f")
+	framesFraction, ticksFraction string
 }
 
 // UnmarshalText implements the TextUnmarshaler interface
@@ -262,6 +264,8 @@ func (d *TTMLInDuration) UnmarshalText(i []byte) (err error) {
 	d.d = time.Duration(0)
 	d.frames = 0
 	d.ticks = 0
+	d.framesFraction = ""
+	d.ticksFraction = ""
 
 	// Check offset time
 	text := string(i)
@@ -278,16 +282,15 @@ func (d *TTMLInDuration) UnmarshalText(i []byte) (err error) {
 
 		// Update duration
 		if metric == "t" || metric == "f" {
-			// Ticks and frames are whole numbers
 			var value int
 			if value, err = strconv.Atoi(integer); err != nil {
 				err = fmt.Errorf("astisub: atoi %s failed: %w", integer, err)
 				return
 			}
 			if metric == "t" {
-				d.ticks = value
+				d.ticks, d.ticksFraction = value, fraction
 			} else {
-				d.frames = value
+				d.frames, d.framesFraction = value, fraction
 			}
 		} else {
 			// Get timebase
@@ -349,21 +352,24 @@ func ttmlOffsetDuration(integer, fraction string, timebase time.Duration) (time.
 
 // duration returns the input TTML Duration's time.Duration
 func (d TTMLInDuration) duration() (o time.Duration) {
-	if d.ticks > 0 && d.tickrate > 0 {
-		return ttmlUnitsDuration(d.ticks, d.tickrate)
+	if (d.ticks > 0 || len(d.ticksFraction) > 0) && d.tickrate > 0 {
+		return ttmlUnitsDuration(d.ticks, d.ticksFraction, d.tickrate)
 	}
 	o = d.d
-	if d.frames > 0 && d.framerate > 0 {
-		o += ttmlUnitsDuration(d.frames, d.framerate)
+	if (d.frames > 0 || len(d.framesFraction) > 0) && d.framerate > 0 {
+		o += ttmlUnitsDuration(d.frames, d.framesFraction, d.framerate)
 	}
 	return
 }
 
-// ttmlUnitsDuration returns the duration of n units (frames, ticks) at the given rate per second, truncated to
-// the nanosecond. It is computed in integer arithmetic, whole seconds first: float64 gives 8.039999999s for
-// 201 frames at 25 frames/s and loses a nanosecond on large tick counts
-func ttmlUnitsDuration(n, rate int) time.Duration {
-	return time.Duration(n/rate)*time.Second + time.Duration(n%rate)*time.Second/time.Duration(rate)
+// ttmlUnitsDuration returns the duration of <n>.<fraction> units (frames, ticks) at the given rate per second,
+// truncated to the nanosecond. It is computed in integer arithmetic: float64 gives 8.039999999s for 201 frames
+// at 25 frames/s and loses a nanosecond on large tick counts
+func ttmlUnitsDuration(n int, fraction string, rate int) time.Duration {
+	v, _ := new(big.Int).SetString(strconv.Itoa(n)+fraction, 10)
+	v.Mul(v, big.NewInt(int64(time.Second)))
+	v.Quo(v, new(big.Int).Mul(new(big.Int).Exp(big.NewInt(10), big.NewInt(int64(len(fraction))), nil), big.NewInt(int64(rate))))
+	return time.Duration(v.Int64())
 }
 
 // ReadFromTTML parses a .ttml content
